@@ -16,9 +16,10 @@ import (
 
 // Event is what the worker did after it was released: parked at a gate or entered the handler.
 type Event struct {
-	Kind string // "gate", "handler", "timeout"
-	Gate string // q.top, q.shortcut, q.select, q.get, q.handled, q.apply, q.exit
-	Task string // id handed to the handler
+	Kind   string // "gate", "handler", "timeout"
+	Gate   string // q.top, q.shortcut, q.select, q.get, q.handled, q.apply, q.exit
+	Task   string // id handed to the handler
+	Status string
 }
 
 // Ctl controls one queue.
@@ -54,7 +55,13 @@ func hook(point string, args ...interface{}) {
 	}
 	regMu.RLock()
 	c := reg[q]
+	a := auto
 	regMu.RUnlock()
+	if c == nil && a != nil && point != "q.write" {
+		// first sight of a queue started by the code under test (called on the queue's worker goroutine)
+		c = Wrap(q, true)
+		a(c)
+	}
 	if c == nil {
 		return
 	}
@@ -72,6 +79,33 @@ func hook(point string, args ...interface{}) {
 }
 
 var next verifhook.Func
+
+var auto func(*Ctl)
+
+// Auto registers every queue the code under test starts by itself: its handler is wrapped (not replaced) and its
+// worker is gated from its first hook point on. fn is told about each new queue.
+func Auto(fn func(*Ctl)) {
+	Install()
+	regMu.Lock()
+	auto = fn
+	regMu.Unlock()
+}
+
+// Wrap keeps the queue's own handler and reports when it is entered ("handler") and left ("handled").
+func Wrap(q *queue.TaskQueue, gated bool) *Ctl {
+	c := &Ctl{Q: q, Gated: gated, events: make(chan Event, 16), resume: make(chan struct{}), results: make(chan queue.TaskResult)}
+	orig := q.Handler
+	q.Handler = func(t task.Task) queue.TaskResult {
+		c.events <- Event{Kind: "handler", Task: t.GetId()}
+		res := orig(t)
+		c.events <- Event{Kind: "handled", Task: t.GetId(), Status: string(res.Status)}
+		return res
+	}
+	regMu.Lock()
+	reg[q] = c
+	regMu.Unlock()
+	return c
+}
 
 // Chain lets another package receive the hook points qgate does not handle.
 func Chain(f verifhook.Func) { next = f }
@@ -138,6 +172,16 @@ func (c *Ctl) Release() bool {
 	case c.resume <- struct{}{}:
 		return true
 	case <-time.After(2 * time.Second):
+		return false
+	}
+}
+
+// TryRelease releases the worker if it parks within d.
+func (c *Ctl) TryRelease(d time.Duration) bool {
+	select {
+	case c.resume <- struct{}{}:
+		return true
+	case <-time.After(d):
 		return false
 	}
 }
